@@ -24,6 +24,7 @@ type c19Obs struct {
 	K string `json:"k"` // connect | open | accept | accepterr | close | die | lclose | final
 	S int    `json:"s"`
 	I int    `json:"i"`
+	N int    `json:"n,omitempty"`
 	F []bool `json:"f,omitempty"`
 }
 
@@ -1020,6 +1021,251 @@ func c19Race(id int, dir string) c19Case {
 	return c
 }
 
+// ---------------------------------------------------------------------------------------------
+// the order of listener.Close's steps, observed through a hook inside the raw listener's Close
+// ---------------------------------------------------------------------------------------------
+type c19HookListener struct {
+	net.Listener
+	once    sync.Once
+	onClose func()
+}
+
+func (h *c19HookListener) Close() error {
+	h.once.Do(func() {
+		if h.onClose != nil {
+			h.onClose()
+		}
+	})
+	return h.Listener.Close()
+}
+
+// conns that were never handed out by Accept and whose server-side stream is gone: Closed by the adapter
+func (x *c19Run) adapterClosed() int {
+	n := 0
+	for _, ss := range x.sess {
+		for _, st := range ss.streams {
+			if st.conn == nil && ss.server.getStreamById(st.cst.id) == nil {
+				n++
+			}
+		}
+	}
+	return n
+}
+
+// REGRESSION scenarios (ids 3, 4): a stream of an established session is queued WHILE listener.Close is
+// closing the raw listener, i.e. after its CAS and before close(closeCh) / the drain.  preQueued: one more
+// conn already waits in the backlog when Close starts (it must still be there at the hook: the drain comes later).
+func c19Hook(id int, dir string, preQueued bool) c19Case {
+	t0 := time.Now()
+	c := c19Case{ID: id, Seed: 0, Backlog: 4}
+	x := &c19Run{c: &c, r: newVrand(uint64(id)), oracle: map[string]bool{}, feat: map[string]bool{}, seenSrv: map[*Session]bool{}, dir: dir}
+	path := filepath.Join(dir, fmt.Sprintf("c19_%d_%d.sock", os.Getpid(), id))
+	os.Remove(path)
+	raw, err := net.Listen("unix", path)
+	if err != nil {
+		c.Skipped = "listen failed: " + err.Error()
+		return c
+	}
+	defer os.Remove(path)
+	hl := &c19HookListener{Listener: raw}
+	l := newListener(hl, 4)
+	x.ln, x.l = l, l
+	x.connect()
+	if c.Skipped == "" {
+		x.open(0)
+		x.startAccept()
+		x.collect(2 * time.Second)
+		if len(x.pending) > 0 {
+			c.Skipped = "setup: Accept did not return"
+		}
+	}
+	if c.Skipped != "" {
+		l.Close()
+		for _, ss := range x.sess {
+			ss.client.Close()
+			ss.server.Close()
+		}
+		return c
+	}
+	if preQueued {
+		x.open(0)
+	}
+	hl.onClose = func() {
+		cc := 0
+		select {
+		case <-l.closeCh:
+			cc = 1
+		default:
+		}
+		if atomic.LoadUint32(&l.closed) != 1 {
+			x.fail("the raw listener is closed before l.closed is set")
+		}
+		bl := len(l.backlog)
+		x.obs(c19Obs{K: "rawclose", S: cc, I: bl, N: x.adapterClosed()})
+		x.open(0) // the stream that arrives inside the window
+		x.obs(c19Obs{K: "backloglen", I: len(l.backlog)})
+		x.obs(c19Obs{K: "hookend"})
+	}
+	x.obs(c19Obs{K: "lclosecall"})
+	x.say("lclose (with a stream arriving inside the raw listener's Close)")
+	l.Close()
+	x.lclosed = true
+	x.obs(c19Obs{K: "lcloseret"})
+	for _, st := range x.sess[0].streams {
+		x.clientClose(st)
+	}
+	for _, st := range x.delivered(true) {
+		x.serverClose(st, 1)
+	}
+	c19Wait(1500*time.Millisecond, func() bool { return x.sess[0].server.IsClosed() })
+	final := []bool{x.sess[0].server.IsClosed()}
+	if !final[0] {
+		x.fail("KNOWN: listener closed, every conn handed out by Accept closed, but a conn that was never delivered (left in the backlog / dropped by the select) pins the server session open")
+		x.feat["undelivered-wrapper"] = true
+	}
+	x.feat["stream-inside-listener-close"] = true
+	x.obs(c19Obs{K: "final", F: final})
+	x.sess[0].client.Close()
+	x.sess[0].server.Close()
+	for _, st := range x.sess[0].streams {
+		c.Pipes = append(c.Pipes, st.up.ev, st.down.ev)
+	}
+	for k := range x.oracle {
+		c.Oracle = append(c.Oracle, k)
+	}
+	for k := range x.feat {
+		c.Feat = append(c.Feat, k)
+	}
+	c.Ms = time.Since(t0).Milliseconds()
+	return c
+}
+
+// STRESS family: established sessions (each kept alive by one accepted conn when held = true) open one more
+// stream each at a random 0-60 us offset while the listener is closed at a random 0-60 us offset.  Oracle: after
+// the listener is closed and every accepted conn is closed, every server session ends within the bound.
+func c19Stress(id int, seed uint64, dir string, held bool) c19Case {
+	t0 := time.Now()
+	c := c19Case{ID: id, Seed: seed, Backlog: 16}
+	r := newVrand(seed)
+	x := &c19Run{c: &c, r: r, oracle: map[string]bool{}, feat: map[string]bool{}, seenSrv: map[*Session]bool{}, dir: dir}
+	path := filepath.Join(dir, fmt.Sprintf("c19_%d_%d.sock", os.Getpid(), id))
+	os.Remove(path)
+	ln, err := ListenWithBacklog(path, 16)
+	if err != nil {
+		c.Skipped = "listen failed: " + err.Error()
+		return c
+	}
+	defer os.Remove(path)
+	x.ln, x.l = ln, ln.(*listener)
+	const nsess = 4
+	for i := 0; i < nsess && c.Skipped == ""; i++ {
+		x.connect()
+		if c.Skipped == "" && held {
+			x.open(i)
+			x.startAccept()
+			x.collect(2 * time.Second)
+		}
+	}
+	if c.Skipped == "" && len(x.pending) > 0 {
+		c.Skipped = "setup: Accept did not return"
+	}
+	if c.Skipped != "" {
+		ln.Close()
+		for _, ss := range x.sess {
+			ss.client.Close()
+			ss.server.Close()
+		}
+		return c
+	}
+	// the racing part: no waiting, no observation in between
+	var wg sync.WaitGroup
+	type opened struct {
+		si  int
+		cst *Stream
+	}
+	res := make(chan opened, nsess)
+	for i := 0; i < nsess; i++ {
+		d := int64(r.intn(60))
+		wg.Add(1)
+		go func(i int, d int64) {
+			defer wg.Done()
+			c19Spin(d)
+			cst, err := x.sess[i].client.OpenStream()
+			if err != nil {
+				return
+			}
+			if _, err = cst.Write([]byte{byte(i), 0xEE, 0xC1, 0x19}); err != nil {
+				return
+			}
+			res <- opened{i, cst}
+		}(i, d)
+	}
+	c19Spin(int64(r.intn(60)))
+	ln.Close()
+	wg.Wait()
+	close(res)
+	x.lclosed = true
+	var late []opened
+	for o := range res {
+		late = append(late, o)
+	}
+	// history for the model: the racing streams in some order, then the Close (their relative order does not
+	// change what the model allows at the end)
+	for _, o := range late {
+		x.obs(c19Obs{K: "open", S: o.si})
+	}
+	x.obs(c19Obs{K: "lclose"})
+	x.say("stress: %d streams racing with listener.Close (held=%v)", len(late), held)
+	time.Sleep(20 * time.Millisecond)
+	for _, o := range late {
+		o.cst.Close()
+	}
+	for _, ss := range x.sess {
+		for _, st := range ss.streams {
+			x.clientClose(st)
+		}
+	}
+	for _, st := range x.delivered(true) {
+		x.serverClose(st, 1)
+	}
+	c19Wait(1500*time.Millisecond, func() bool {
+		for _, ss := range x.sess {
+			if !ss.server.IsClosed() {
+				return false
+			}
+		}
+		return true
+	})
+	final := make([]bool, len(x.sess))
+	for si, ss := range x.sess {
+		final[si] = ss.server.IsClosed()
+		if !final[si] {
+			x.fail("KNOWN: listener closed, every conn handed out by Accept closed, but a conn that was never delivered (left in the backlog / dropped by the select) pins the server session open")
+			x.feat["undelivered-wrapper"] = true
+		}
+	}
+	x.feat["streams-racing-with-listener-close"] = true
+	x.obs(c19Obs{K: "final", F: final})
+	for _, ss := range x.sess {
+		ss.client.Close()
+		ss.server.Close()
+	}
+	for k := range x.oracle {
+		c.Oracle = append(c.Oracle, k)
+	}
+	for k := range x.feat {
+		c.Feat = append(c.Feat, k)
+	}
+	c.Ms = time.Since(t0).Milliseconds()
+	return c
+}
+
+func c19Spin(us int64) {
+	t0 := time.Now()
+	for time.Since(t0) < time.Duration(us)*time.Microsecond {
+	}
+}
+
 func TestVerif_C19(t *testing.T) {
 	seed := uint64(venvInt("VERIF_SEED", 1))
 	n := venvInt("VERIF_N", 40)
@@ -1037,7 +1283,9 @@ func TestVerif_C19(t *testing.T) {
 	emit(c19Pinned(0, dir, false))
 	emit(c19Pinned(1, dir, true))
 	emit(c19Race(2, dir))
-	var next int64 = 2
+	emit(c19Hook(3, dir, false))
+	emit(c19Hook(4, dir, true))
+	var next int64 = 4
 	var wg sync.WaitGroup
 	for w := 0; w < par; w++ {
 		wg.Add(1)
@@ -1045,7 +1293,7 @@ func TestVerif_C19(t *testing.T) {
 			defer wg.Done()
 			for {
 				id := int(atomic.AddInt64(&next, 1))
-				if id >= n+3 {
+				if id >= n+5 {
 					return
 				}
 				emit(c19Scenario(id, seed*1000003+uint64(id), dir))
@@ -1053,4 +1301,28 @@ func TestVerif_C19(t *testing.T) {
 		}()
 	}
 	wg.Wait()
+	// stress: streams racing with listener.Close
+	nstress := venvInt("VERIF_STRESS", 3*n/2)
+	var sid int64 = int64(n + 5)
+	var wg2 sync.WaitGroup
+	for w := 0; w < par; w++ {
+		wg2.Add(1)
+		go func() {
+			defer wg2.Done()
+			for {
+				k := int(atomic.AddInt64(&sid, 1)) - 1
+				if k >= n+5+nstress {
+					return
+				}
+				emit(c19Stress(k, seed*7919+uint64(k), dir, true))
+			}
+		}()
+	}
+	wg2.Wait()
+	// LAST (a hit kills the process): sessions WITHOUT a held conn: listener.Close releases the last reference
+	// (counter 0, wg.Wait returning) while newStreamWrapper does wg.Add(1) for a stream arriving at that moment
+	nreuse := venvInt("VERIF_REUSE", 3*n/2)
+	for k := 0; k < nreuse; k++ {
+		emit(c19Stress(n+5+nstress+k, seed*104729+uint64(k), dir, false))
+	}
 }
